@@ -663,6 +663,28 @@ class Fn:
             return V(a.s, INTS, n=a.n, elo=a.elo, ehi=a.ehi)          # a new object with the same items
         if name in ("bytes", "bytearray") and not e.args:
             return V("([] : Bytes)", BYTES if name == "bytes" else BYTEARRAY, n=0)
+        if name == "sum" and len(e.args) == 1 and isinstance(e.args[0], (ast.GeneratorExp, ast.ListComp)):
+            # sum(f(v) for v in <range / bytes / int list>): the sum of the mapped sequence; the element expression must not
+            # raise, the comprehension has one `for`, no `if`; its variable is local to it (Python 3)
+            g = e.args[0]
+            if len(g.generators) != 1 or g.generators[0].ifs or g.generators[0].is_async \
+               or not isinstance(g.generators[0].target, ast.Name):
+                self.err(e, "sum() of a comprehension: exactly one `for NAME in …`, no `if`, is in the subset")
+            var = g.generators[0].target.id
+            if var in env:
+                self.err(e, "the comprehension variable %s shadows a bound name" % var)
+            iters, lv = self.iter_of(e, g.generators[0].iter, var, env, [])
+            env2 = dict(env)
+            env2[var] = lv
+            self.guard += 1
+            try:
+                el = self.expr(g.elt, env2)
+            finally:
+                self.guard -= 1
+            if el.t != INT:
+                self.err(e, "sum() of a comprehension of %s" % el.t)
+            lo = 0 if (el.lo is not None and el.lo >= 0) else None
+            return V("(Py.sum (List.map (fun (%s : Int) => %s) %s))" % (lname(var), el.s, iters), INT, lo, None)
         if name == "sum" and len(e.args) == 1:
             a = self.expr(e.args[0], env)
             if a.t != INTS:
@@ -732,6 +754,36 @@ class Fn:
                 target, selfcall = env[f.value.id].rec + "." + f.attr, f.value.id
             else:
                 target = f.value.id + "." + f.attr
+        if target is not None and target not in self.mod.funcs and name is not None and name not in env \
+           and name not in self.locals and name not in getattr(self.mod, "in_progress", set()):
+            # a helper function of the same module that the SRC table does not list: translated on demand, with the
+            # parameter types of this call (its own tie is the caller's theorem)
+            helper = None
+            for n_ in self.mod.tree.body:
+                if isinstance(n_, ast.FunctionDef) and n_.name == name:
+                    helper = n_
+            if helper is not None and not helper.decorator_list:
+                ptypes = {}
+                saved_pre, self.pre = self.pre, []
+                saved_guard, self.guard = self.guard, 1          # only the types are wanted here
+                try:
+                    for prm, a_ in zip([x.arg for x in helper.args.args], e.args):
+                        try:
+                            ta = self.expr(a_, env).t
+                        except (TranslationError, NeedMonad):
+                            ta = None
+                        ptypes[prm] = {INT: "int", BYTES: "bytes", BYTEARRAY: "bytes", INTS: "ints"}.get(ta)
+                finally:
+                    self.pre, self.guard = saved_pre, saved_guard
+                if all(v_ is not None for v_ in ptypes.values()) and len(ptypes) == len(helper.args.args):
+                    if not hasattr(self.mod, "in_progress"):
+                        self.mod.in_progress = set()
+                    self.mod.in_progress.add(name)
+                    try:
+                        translate_function(self.mod, {"func": name, "params": ptypes})
+                    finally:
+                        self.mod.in_progress.discard(name)
+                    self.notes.append("the helper %s of the same module is translated on demand (definition above)" % name)
         if target in self.mod.funcs:
             sig = self.mod.funcs[target]
             args = []
@@ -807,6 +859,39 @@ class Fn:
         return (isinstance(e, ast.Subscript) and isinstance(e.slice, ast.Slice) and e.slice.step is None
                 and e.slice.upper is not None and isinstance(e.value, ast.Call) and isinstance(e.value.func, ast.Name)
                 and e.value.func.id == "bin" and len(e.value.args) == 1 and not e.value.keywords)
+
+    def iter_of(self, s, it, var, env, asg):
+        """(Lean text of the list of ints iterated over, V of the loop variable) for range(...) / bytes / int list"""
+        if isinstance(it, ast.Call) and isinstance(it.func, ast.Name) and it.func.id == "range" and not it.keywords \
+           and 1 <= len(it.args) <= 3:
+            if "range" in self.locals or self.mod.binds("range"):
+                self.err(s, "the name range is re-bound in this function or module")
+            args = [self.expr(a, env) for a in it.args]
+            if any(a.t != INT for a in args):
+                self.err(s, "range() of a non-int")
+            if len(args) == 1:
+                lt = set()
+                a0 = it.args[0]
+                if isinstance(a0, ast.Call) and isinstance(a0.func, ast.Name) and a0.func.id == "len" and len(a0.args) == 1:
+                    sq = a0.args[0]
+                    kname = sq.id if isinstance(sq, ast.Name) else (
+                        sq.value.id + "." + sq.attr if isinstance(sq, ast.Attribute) and isinstance(sq.value, ast.Name) else None)
+                    if kname is not None and kname not in asg:
+                        lt.add(kname)
+                return "(Py.range %s)" % args[0].s, V(lname(var), INT, 0, None if args[0].hi is None else args[0].hi - 1, ltlen=lt)
+            if len(args) == 2:
+                return "(Py.range2 %s %s)" % (args[0].s, args[1].s), \
+                    V(lname(var), INT, args[0].lo, None if args[1].hi is None else args[1].hi - 1)
+            if args[2].lo is None or args[2].lo != args[2].hi or args[2].lo <= 0:
+                self.err(s, "range step must be a positive constant")
+            return "(Py.range3 %s %s %s)" % (args[0].s, args[1].s, args[2].s), \
+                V(lname(var), INT, args[0].lo, None if args[1].hi is None else args[1].hi - 1)
+        seq = self.expr(it, env)
+        if seq.t in (BYTES, BYTEARRAY):
+            return "(Py.bytesInts %s)" % seq.s, V(lname(var), INT, 0, 255)
+        if seq.t == INTS:
+            return seq.s, V(lname(var), INT, seq.elo, seq.ehi)
+        self.err(s, "iteration over %s is not in the subset" % seq.t)
 
     def closed_float(self, e):
         """a closed arithmetic expression over int / float literals (no names)"""
